@@ -137,7 +137,7 @@ fn operand_class(s: &Snap) -> String {
 fn sweep(ctx: &mut Ctx) {
     let (mut is, names) = new_iset();
     let cache = sorted_cache(&is);
-    let per_name = ctx.n(if ctx.profile == "debug" { 600 } else { 2500 }, if ctx.profile == "debug" { 3000 } else { 12000 });
+    let per_name = ctx.n(if ctx.profile == "debug" { 1000 } else { 6000 }, if ctx.profile == "debug" { 6000 } else { 40000 });
     let mut case: u64 = 0;
     for name in names.iter() {
         for k in 0..per_name {
@@ -265,9 +265,9 @@ fn programs(ctx: &mut Ctx, src: Src) {
         Src::Typed => 4u64,
     };
     let nprog = match src {
-        Src::Grammar => ctx.n(if ctx.profile == "debug" { 8000 } else { 40000 }, if ctx.profile == "debug" { 40000 } else { 200000 }),
-        Src::PushrGenerator => ctx.n(if ctx.profile == "debug" { 4000 } else { 16000 }, if ctx.profile == "debug" { 20000 } else { 100000 }),
-        Src::Typed => ctx.n(if ctx.profile == "debug" { 6000 } else { 30000 }, if ctx.profile == "debug" { 40000 } else { 200000 }),
+        Src::Grammar => ctx.n(if ctx.profile == "debug" { 12000 } else { 80000 }, if ctx.profile == "debug" { 100000 } else { 1000000 }),
+        Src::PushrGenerator => ctx.n(if ctx.profile == "debug" { 8000 } else { 30000 }, if ctx.profile == "debug" { 80000 } else { 400000 }),
+        Src::Typed => ctx.n(if ctx.profile == "debug" { 10000 } else { 60000 }, if ctx.profile == "debug" { 100000 } else { 1000000 }),
     };
     for k in 0..nprog as u64 {
         let case = label * 10_000_000 + k;
